@@ -1482,6 +1482,46 @@ add('c18-benign-number-int-broader-handler', 'C18', 'benign', [(OPERAND, """    
         except (ValueError, OverflowError):
             return float(name)""")])
 
+ENG = 'formulas/functions/eng.py'
+add('c11-dec2x-places-ignored-for-negatives', 'C11', 'break', [(ENG, """        if x < 0:
+            x += y << 1
+        x = _xfunc[base](int(x))[2:].upper()
+        if places is not None:
+            places = int(places)
+            if places >= len(x):
+                return x.zfill(int(places))
+        else:
+            return x""", """        negative = x < 0
+        if negative:
+            x += y << 1
+        x = _xfunc[base](int(x))[2:].upper()
+        if places is None or negative:
+            return x
+        places = int(places)
+        if places >= len(x):
+            return x.zfill(places)""")], expect='C11.errkeep.unused')
+add('c11-benign-dec2x-places-none-first', 'C11', 'benign', [(ENG, """        x = _xfunc[base](int(x))[2:].upper()
+        if places is not None:
+            places = int(places)
+            if places >= len(x):
+                return x.zfill(int(places))
+        else:
+            return x""", """        x = _xfunc[base](int(x))[2:].upper()
+        if places is None:
+            return x
+        places = int(places)
+        if places >= len(x):
+            return x.zfill(places)""")])
+add('c11-x2dec-new-unchecked-argument', 'C11', 'break', [(ENG, """def _x2dec(x, base=16):
+    if isinstance(x, XlError):
+        return x""", """def _x2dec(x, base=16):
+    if isinstance(x, XlError):
+        return x
+    if x == '0':
+        return 0"""), (ENG, """        function=_x2dec,
+        inputs=['HEX'],""", """        function=_x2dec,
+        inputs=['HEX', 'places'],""")], expect='C11.errkeep.unused')
+
 if __name__ == '__main__':
     here = os.path.dirname(os.path.abspath(__file__))
     ids = [v['id'] for v in V]
